@@ -11,7 +11,7 @@ use std::ffi::CString;
 
 pub static DEF: PropDef = PropDef {
     id: "C12",
-    rule: "tier A (matcher behind -name/-path/-lname through the verif-hooks entry point vs glibc fnmatch(3) in locale C.UTF-8, flags 0 and FNM_CASEFOLD): exhaustive over every pattern of <= 4 (thorough 5) symbols from {a b * ? [ ] ! - \\ . /} x every subject of <= 4 symbols from {a b . / - ] NL}; random patterns of <= 16 pieces (literals incl. every regex metacharacter . ^ $ + ( ) { } |, '*', '?', escapes, bracket expressions with ranges, '!' negation, ']' first, each of the twelve character classes [[:alpha:]] ... [[:xdigit:]] (plain, negated, with further members) paired with each of its ASCII members 1..127, stray '[' ']' '!', an unmatched '[' followed by text of the form [.a.] / [=a=] and regex operators, trailing backslash, multi-byte characters) and, in a sub-run of its own, patterns with 2-8 '*' between short texts against subjects of up to several thousand characters built to match with many false starts; against subjects derived from the pattern (a string that matches by construction and its one-edit neighbours: extra prefix/suffix, changed case, inserted '/', leading '.', embedded newline, dropped character, one character replaced by a letter pair such as ff / ss / st that a single character folds to) plus random strings. tier B (end to end): a directory of files named by slash-free subjects and of symbolic links whose targets are arbitrary subjects; find DIR -name|-iname|-path|-ipath|-wholename|-lname|-ilname PAT -print0 in process; the selected set must equal {entries whose basename / printed path / link target fnmatch-es}. tier C (which string is matched): a fixed tree (directories, files, a dot file, links to a file, to a directory, dangling; links as starting points) walked from 29 starting-point spellings (plain, trailing slashes, /., /.., //, ./, '.', through links) under -P/-H/-L with -maxdepth 0/1/2/none; the pattern is a literal / '*'+tail / head+'*' / upper-cased / bracketed / '?' form of a string of one entry (the named string itself, its last ordinary component, whole path, last component, link text, path without trailing slashes, name of the file it resolves to); expected: exactly the entries of the reference walk whose last path component (trailing slashes dropped; '.' and '..' are components) / path as printed / link text (only where the follow mode leaves the entry a link) fnmatch-es. Pairs on which fnmatch reports an error are skipped and counted. Non-trivial = the pattern contains a wildcard or bracket AND a backslash or regex metacharacter, and both a matching and a non-matching subject were tried. Distinct = distinct (pattern, flags) pair.",
+    rule: "tier A (matcher behind -name/-path/-lname through the verif-hooks entry point vs glibc fnmatch(3) in locale C.UTF-8, flags 0 and FNM_CASEFOLD): exhaustive over every pattern of <= 4 (thorough 5) symbols from {a b * ? [ ] ! - \\ . /} x every subject of <= 4 symbols from {a b . / - ] NL}; random patterns of <= 16 pieces (literals incl. every regex metacharacter . ^ $ + ( ) { } |, '*', '?', escapes, bracket expressions with ranges, '!' negation, ']' first, each of the twelve character classes [[:alpha:]] ... [[:xdigit:]] (plain, negated, with further members) paired with each of its ASCII members 1..127, stray '[' ']' '!', an unmatched '[' followed by text of the form [.a.] / [=a=] and regex operators, trailing backslash, multi-byte characters) and, in a sub-run of its own, patterns with 2-8 '*' between short texts against subjects of up to several thousand characters built to match with many false starts; against subjects derived from the pattern (a string that matches by construction and its one-edit neighbours: extra prefix/suffix, changed case, inserted '/', leading '.', embedded newline, dropped character, one character replaced by a letter pair such as ff / ss / st that a single character folds to) plus random strings. tier B (end to end): a directory of files named by slash-free subjects and of symbolic links whose targets are arbitrary subjects; find DIR -name|-iname|-path|-ipath|-wholename|-lname|-ilname PAT -print0 in process; the selected set must equal {entries whose basename / printed path / link target fnmatch-es}. tier C (which string is matched): a fixed tree (directories, files, a dot file, links to a file, to a directory, dangling; links as starting points) walked from 29 starting-point spellings (plain, trailing slashes, /., /.., //, ./, '.', through links) under -P/-H/-L with -maxdepth 0/1/2/none; the pattern is a literal / '*'+tail / head+'*' / upper-cased / bracketed / '?' form of a string of one entry (the named string itself, its last ordinary component, whole path, last component, link text, path without trailing slashes, name of the file it resolves to); expected: exactly the entries of the reference walk whose last path component (trailing slashes dropped; '.' and '..' are components) / path as printed / link text (only where the follow mode leaves the entry a link) fnmatch-es. Sub-run caseless-fresh-process: the find binary, one process per case, a single -iname/-ipath/-ilname test whose pattern (0-3 stars, optionally a bracket) holds a letter pair ss/ff/fi/fl/st; entries named with the pair in three cases (selected) and with the single character full case folding maps to it (never selected). Pairs on which fnmatch reports an error are skipped and counted. Non-trivial = the pattern contains a wildcard or bracket AND a backslash or regex metacharacter, and both a matching and a non-matching subject were tried. Distinct = distinct (pattern, flags) pair.",
     assumptions: &[
         "glibc fnmatch(3) with flags 0 / FNM_CASEFOLD in locale C.UTF-8 is POSIX fnmatch() for the patterns generated",
         "not generated / not compared (POSIX leaves them unspecified or implementations legitimately differ): '^' first in a bracket expression, a backslash inside a bracket expression, reversed ranges, collating symbols and equivalence classes inside a matched bracket expression (and, anywhere, ones of more than one character, at which glibc gives up on the whole pattern), case folding of non-ASCII letters, subjects or patterns that are not valid UTF-8",
